@@ -22,7 +22,7 @@ fi
 find "$W/repo/src" "$W/verif/harness/src" -type f -exec touch {} +
 export CARGO_TARGET_DIR=/tmp/cfb-mut-target CARGO_NET_OFFLINE=true
 if [ "${MUT_TESTS:-0}" = 1 ]; then
-  ( flock 9; cd "$W/repo" && cargo test --workspace --no-fail-fast --offline 2>&1 | grep -E "^test result|FAILED|panicked|error(\[|:)" | sort | uniq -c | head -12 ) 9>/tmp/cfb-mut.lock
+  ( flock 9; cd "$W/repo" && timeout 300 cargo test --workspace --no-fail-fast --offline 2>&1 | grep -E "^test result|FAILED|panicked|error(\[|:)" | sort | uniq -c | head -12 ) 9>/tmp/cfb-mut.lock
 fi
 # the build cache is shared between runs: build and take a private copy of the binary under a lock
 ( flock 9
